@@ -1416,10 +1416,15 @@ def r9_resource_from_route(run):
         raise AnchorError('_get_responder: no tuple return')
     # position of the resource element: the name that the callers unpack third (responder, params, resource, uri_template)
     res_names = set()
+    direct = []  # returns that give the resource element directly (early returns): judged like a binding
     for r in rets:
-        if len(r.value.elts) < 3 or not isinstance(r.value.elts[2], ast.Name):
+        if len(r.value.elts) < 3:
             raise UnknownIdiom('_get_responder: return shape %s' % short(r.value))
-        res_names.add(r.value.elts[2].id)
+        e = r.value.elts[2]
+        if isinstance(e, ast.Name):
+            res_names.add(e.id)
+        else:
+            direct.append((r, e))
     # the router's answer: a local bound from self._router_search(...)
     route_names = set()
     for a in walk_self(f.node):
@@ -1429,6 +1434,12 @@ def r9_resource_from_route(run):
     if not route_names:
         raise AnchorError('_get_responder: router lookup not found')
     n = 0
+    for r, e in direct:
+        n += 1
+        ok = (isinstance(e, ast.Constant) and e.value is None) \
+            or (isinstance(e, ast.Subscript) and isinstance(e.value, ast.Name) and e.value.id in route_names)
+        run.check(ok, '_get_responder binds the resource element of its answer only from the router\'s result (or None)', f, r,
+                  runtime_witness='a request served by a sink or static route: process_resource of every middleware component runs although no route matched')
     for a in walk_self(f.node):
         tgts = []
         if isinstance(a, ast.Assign):
